@@ -9,8 +9,9 @@ version and chain files in it — the only times `isNewerThan` looks at), the ca
 (user, stack, flavor) with their mtimes, and a logical clock (DESIGN 4.4: the harness renumbers the mtimes
 after every command in the order of the real modification times, so only the order of effects matters).
 
-A command (`step`) is one process: `load` every stack (accept the native-flavor cache file or rebuild from
-the database and save every flavor found — the rule of D16), run the command of `Db.lean` on that view,
+A command (`step`) is one process: `load` every stack (accept the cache files of the native flavor and of its
+fallback, or rebuild from the database and save every flavor found; the pinned rule of D16 — native flavor only —
+is kept as `loadStackPinned`), run the command of `Db.lean` on that view,
 and apply its effects in order, each in three parts: the `Database` mutation changes `db` and `touch`, the
 write-through changes the process's view, `save` writes the cache file of the stack from the view.  A crash
 cuts the trace right after the `Database` part of the k-th effect. -/
@@ -90,10 +91,10 @@ chain file in it, is newer (`>`) than the cache file -/
 def upToDate (w : World) (s : Nat) (t : Nat) : Bool :=
   w.touch.all fun x => x.stack != s || x.mtime ≤ t
 
-/-- `_tryCache`: the native-flavor cache file exists, is up to date, and names the same products as the
-database -/
+/-- the freshness half of `_tryCache` for one cache file, and the half of the product-name check that concerns
+it: the file is up to date and names only products the database has -/
 def accepts (w : World) (cf : CacheFile) : Bool :=
-  upToDate w cf.stack cf.mtime && sameSet (specNames cf.c) (dbNames w.db cf.stack)
+  upToDate w cf.stack cf.mtime && (specNames cf.c).all (dbNames w.db cf.stack).contains
 
 /-- persist the flavors `fs` of the view `m` of stack `s`, one clock tick each -/
 def saveAll (u : User) (s : Nat) (m : Spec) : List Flav → World → World
@@ -107,25 +108,79 @@ structure Loaded where
   flavs : List Flav
   w : World
 
-/-- `ProductStack.fromCache(dbpath, [self.flavor], persistDir=userCacheDir)` in a fresh process -/
+/-- the flavors `Eups.__init__` asks the cache for: the native flavor and its fallback
+(`utils.uniq(getFallbackFlavors(self.flavor, True))`, the fallback flavors being installed first) -/
+def needed (self : Flav) : List Flav := dedup (fallbacks self)
+
+/-- the cache files of (user, stack) for the flavors `fs`, when all of them exist -/
+def findCaches (w : World) (u : User) (s : Nat) : List Flav → Option (List CacheFile)
+  | [] => some []
+  | f :: fs =>
+    match w.findCache u s f, findCaches w u s fs with
+    | some c, some cs => some (c :: cs)
+    | _, _ => none
+
+def unionAll : List Spec → Spec
+  | [] => Spec.empty
+  | c :: cs => specUnion c (unionAll cs)
+
+/-- `ProductStack.fromCache(dbpath, neededFlavors, persistDir=userCacheDir)` in a fresh process: when the cache
+file of every needed flavor exists and is up to date, and together they name the products of the database, they
+are loaded (`_tryCache`); otherwise the stack is rebuilt from the database, every flavor of it, and every flavor
+is saved -/
 def loadStack (w : World) (u : User) (self : Flav) (s : Nat) : Loaded :=
+  let rebuild : Loaded :=
+    let m := snapshot w.db s
+    let fs := specFlavors m ++ (needed self).filter fun f => !(specFlavors m).contains f
+    ⟨m, fs, saveAll u s m fs w⟩
+  match findCaches w u s (needed self) with
+  | none => rebuild
+  | some cfs =>
+    let view := unionAll (cfs.map (·.c))
+    if cfs.all (accepts w) && (dbNames w.db s).all (specNames view).contains then ⟨view, needed self, w⟩
+    else rebuild
+
+/-- `Eups.__init__`: every stack of the path in order; the flavors each stack holds are kept by stack -/
+def loadFrom (u : User) (self : Flav) :
+    List Nat → Spec → List (Nat × List Flav) → World → Spec × List (Nat × List Flav) × World
+  | [], m, fl, w => (m, fl, w)
+  | s :: ss, m, fl, w =>
+    let l := loadStack w u self s
+    loadFrom u self ss (specUnion m l.view) (fl ++ [(s, l.flavs)]) l.w
+
+def load (w : World) (u : User) (self : Flav) : Spec × List (Nat × List Flav) × World :=
+  loadFrom u self (allStacks w.nst) Spec.empty [] w
+
+/-- `self.versions[stack].getFlavors()` during the command (none for a stack that is not on the path) -/
+def heldOf (fl : List (Nat × List Flav)) (s : Nat) : List Flav :=
+  match fl.find? (fun x => x.1 == s) with
+  | some x => x.2
+  | none => []
+
+/-! ### the pinned rule (D16, repaired): the fallback flavors were installed after the cache was read -/
+
+def acceptsPinned (w : World) (cf : CacheFile) : Bool :=
+  upToDate w cf.stack cf.mtime && sameSet (specNames cf.c) (dbNames w.db cf.stack)
+
+/-- the load rule of the pinned tree: an accepted cache is loaded for the native flavor only -/
+def loadStackPinned (w : World) (u : User) (self : Flav) (s : Nat) : Loaded :=
   let rebuild : Loaded :=
     let m := snapshot w.db s
     let fs := specFlavors m ++ (if (specFlavors m).contains self then [] else [self])
     ⟨m, fs, saveAll u s m fs w⟩
   match w.findCache u s self with
   | none => rebuild
-  | some cf => if accepts w cf then ⟨cf.c, [self], w⟩ else rebuild
+  | some cf => if acceptsPinned w cf then ⟨cf.c, [self], w⟩ else rebuild
 
-/-- `Eups.__init__`: every stack of the path in order -/
-def loadFrom (u : User) (self : Flav) : List Nat → Spec → List (List Flav) → World → Spec × List (List Flav) × World
+def loadFromPinned (u : User) (self : Flav) :
+    List Nat → Spec → List (Nat × List Flav) → World → Spec × List (Nat × List Flav) × World
   | [], m, fl, w => (m, fl, w)
   | s :: ss, m, fl, w =>
-    let l := loadStack w u self s
-    loadFrom u self ss (specUnion m l.view) (fl ++ [l.flavs]) l.w
+    let l := loadStackPinned w u self s
+    loadFromPinned u self ss (specUnion m l.view) (fl ++ [(s, l.flavs)]) l.w
 
-def load (w : World) (u : User) (self : Flav) : Spec × List (List Flav) × World :=
-  loadFrom u self (allStacks w.nst) Spec.empty [] w
+def loadPinned (w : World) (u : User) (self : Flav) : Spec × List (Nat × List Flav) × World :=
+  loadFromPinned u self (allStacks w.nst) Spec.empty [] w
 
 /-! ## effects on the world -/
 
@@ -164,9 +219,9 @@ def applyDbW (w : World) (e : Eff) : World :=
       { w with db := db', touch := setTouch w.touch s n (if alive then some w.now else none), now := w.now + 1 }
     else w
 
-/-- last part of an effect: `save(flavor)` of the stack's cache file from the in-memory view `m'`;
-`rmTree` removes the directory -/
-def applySaveW (u : User) (w : World) (m m' : Spec) (e : Eff) : World :=
+/-- last part of an effect: `save(getFlavors())` — the cache file of every flavor the stack holds is written from
+the in-memory view `m'`; `rmTree` removes the directory, `copyExtra` saves an extra file -/
+def applySaveW (u : User) (held : Nat → List Flav) (w : World) (m m' : Spec) (e : Eff) : World :=
   match e with
   | .rmTree d => { w with dirs := w.dirs.filter fun x => x.dir != d }
   | .copyExtra x => { w with extras := x :: w.extras.filter fun y =>
@@ -174,13 +229,26 @@ def applySaveW (u : User) (w : World) (m m' : Spec) (e : Eff) : World :=
   | _ =>
     match e.saves m with
     | none => w
-    | some (s, f) => { w with caches := setCache w.caches ⟨u, s, f, restrict m' s f, w.now⟩, now := w.now + 1 }
+    | some (s, _) => saveAll u s m' (held s) w
 
-/-- one whole effect of a process of user `u` whose in-memory view is `m` (`fixed`: with the D1 repair):
-database, write-through, save -/
-def applyW (fixed : Bool) (u : User) (wm : World × Spec) (e : Eff) : World × Spec :=
+/-- one whole effect of a process of user `u` whose in-memory view is `m` and whose stacks hold the flavors
+`held` (`fixed`: with the D1 repair): database, write-through, save -/
+def applyW (fixed : Bool) (u : User) (held : Nat → List Flav) (wm : World × Spec) (e : Eff) : World × Spec :=
   let m' := applyMemG fixed e wm.2
-  (applySaveW u (applyDbW wm.1 e) wm.2 m' e, m')
+  (applySaveW u held (applyDbW wm.1 e) wm.2 m' e, m')
+
+/-- the pinned tree saved the cache file of the flavor of the effect only (`save(self.flavor)`) -/
+def applyWPinned (u : User) (wm : World × Spec) (e : Eff) : World × Spec :=
+  let m' := applyMem e wm.2
+  let w1 := applyDbW wm.1 e
+  (match e with
+   | .rmTree d => { w1 with dirs := w1.dirs.filter fun x => x.dir != d }
+   | .copyExtra _ => w1
+   | _ =>
+     match e.saves wm.2 with
+     | none => w1
+     | some (s, f) => { w1 with caches := setCache w1.caches ⟨u, s, f, restrict m' s f, w1.now⟩, now := w1.now + 1 },
+   m')
 
 /-- a trace cut by a crash right after the k-th `Database` mutation (`k ≥ 1`): the effects applied in full and
 the one of which only the database part happens; the whole trace when it has fewer than k mutations -/
@@ -193,8 +261,9 @@ def cutAfterDb : List Eff → Nat → List Eff × Option Eff
     else let r := cutAfterDb es (k + 1); (e :: r.1, r.2)
 
 /-- replay of a trace, possibly cut -/
-def replay (fixed : Bool) (u : User) (wm : World × Spec) (es : List Eff) (last : Option Eff) : World :=
-  let wm' := es.foldl (applyW fixed u) wm
+def replay (fixed : Bool) (u : User) (held : Nat → List Flav) (wm : World × Spec) (es : List Eff)
+    (last : Option Eff) : World :=
+  let wm' := es.foldl (applyW fixed u held) wm
   match last with
   | none => wm'.1
   | some e => applyDbW wm'.1 e
@@ -213,7 +282,7 @@ inductive WCmd
 structure StepResult where
   out : Outcome
   crashed : Bool
-  flavs : List (List Flav)      -- flavors each stack holds after `Eups.__init__`
+  flavs : List (Nat × List Flav)   -- flavors each stack holds after `Eups.__init__`
   view : Spec                   -- the in-memory stacks after `Eups.__init__`
   trace : List Eff
   would : List Msg              -- what the command reports it would do (meaningful for dry runs)
@@ -229,10 +298,24 @@ def stepG (fixed : Bool) (w : World) : WCmd → StepResult
       | none => (p.tr, none)
       | some k => cutAfterDb p.tr k
     ⟨out, cut.2.isSome, fl, m, cut.1 ++ cut.2.toList, wouldDo w.nst c ⟨w1.db, m, w1.dirs, [], w1.extras⟩,
-     replay fixed u (w1, m) cut.1 cut.2⟩
+     replay fixed u (heldOf fl) (w1, m) cut.1 cut.2⟩
 
 def step (w : World) (c : WCmd) : World := (stepG true w c).w
+/-- the tree without the D1 repair (`ProductFamily.removeVersion`) -/
 def stepPinned (w : World) (c : WCmd) : World := (stepG false w c).w
+
+/-- a command (not killed) on the tree without the D16 repair: native flavor only from an accepted cache, and
+`save(self.flavor)` after each mutation -/
+def stepPinnedD16 (w : World) : WCmd → World
+  | .rmCache u s f => { w with caches := rmCache w.caches u s f }
+  | .clearCache u => { w with caches := w.caches.filter fun x => x.user != u }
+  | .run u c _ =>
+    let (m, _, w1) := loadPinned w u c.self
+    let (_, p) := run w.nst c ⟨w1.db, m, w1.dirs, [], w1.extras⟩
+    (p.tr.foldl (applyWPinned u) (w1, m)).1
+
+/-- what a fresh process of the pinned tree sees through the cache -/
+def viaCachePinnedD16 (w : World) (u : User) (self : Flav) : Spec := (loadPinned w u self).1
 
 def runHistory (w : World) (h : List WCmd) : World := h.foldl step w
 
